@@ -774,3 +774,9 @@ add('C03.materialise_error_swallowed', 'C03', (PG, "          op_quant_results =
     ('C03.R15', 'C03.R14'), 'an error raised while materialising an operator silently leaves it float (seeded b10-C03)')
 add('C10.twin_logging_handler', 'C10', (PG, "    self._post_process_results()\n    return self.model_quant_results", "    try:\n      n_entries = len(self.model_quant_results)\n    except TypeError:\n      n_entries = 0\n    del n_entries\n    self._post_process_results()\n    return self.model_quant_results"),
     (), 'a handler around code that cannot refuse anything', kind='twin')
+ES = 'transformations/emulated_subchannel.py'
+add('C01.fixed_name_constant', 'C01', (ES, "      weight_tensor.name + b'_reduce_axes',\n", "      b'emulated_subchannel_reduce_axes',\n"), 'C01.R17', 'a helper constant gets a fixed name: repeated for every emulated operator / subgraph (seeded b11-C01)')
+add('C01.suffix_reused', 'C01', (ES, "      activation_output.name + b'_mul_input',\n", "      activation_output.name + b'_bmm_input',\n"), 'C01.R17', 'two tensors derived from one source get the same suffix')
+add('C01.twin_suffix_variable', 'C01', (ES, "      weight_tensor.name + b'_scale',\n", "      weight_tensor.name + b'_scales',\n"), (), 'another unique suffix', kind='twin')
+add('C09.ema_keeps_dtype', 'C09', ('utils/calibration_utils.py', "  return smoothing_factor * w + (1.0 - smoothing_factor) * update\n", "  updated = smoothing_factor * w + (1.0 - smoothing_factor) * update\n  if isinstance(w, np.ndarray):\n    updated = updated.astype(w.dtype, copy=False)\n  return updated\n"),
+    ('C09.R11', 'C09.R2'), 'the moving average is cast back to the dtype of the old statistic: integer-typed runtime tensors stay at their first sample (seeded b11-C09)')
